@@ -247,6 +247,16 @@ func (e *env) view() audit.View {
 	return audit.OpenLayout(e.artDir)
 }
 
+// rawTag resolves a tag of the artifacts' repository from raw storage ("" if absent).
+func (e *env) rawTag(tag string) string {
+	if e.isReg() {
+		e.m.Lock()
+		defer e.m.Unlock()
+	}
+	d, _ := e.view().Tag(tag)
+	return d
+}
+
 // snapshot reads raw storage (model maps under the model lock, or plain files).
 func (e *env) snapshot(u *universe) rawState {
 	if e.isReg() {
